@@ -203,7 +203,39 @@ def h_mono(n_wav, n_ap, nm, window, par_order):
     return run
 
 
-def h_cube_slice(n_wav, n_ap, nm):
+def replay_slice(inp):
+    """Concrete twin of M4: a real cube package on disk read with a wavelength filter."""
+    import astropy.units as u
+    ld = loader.real_loader()
+    CU = ld.load('sedfitter.sed.cube').SEDCube
+    M = ld.load('sedfitter.models').Models
+    d = tempfile.mkdtemp(prefix='c16s-')
+    try:
+        open(os.path.join(d, 'models.conf'), 'w').write("name = t\nlength_subdir = 0\naperture_dependent = no\nlogd_step = 0.02\nversion = 2\n")
+        names = inp['names']
+        w = np.array(inp['w'], dtype=float)
+        val = np.array([inp['flux'][n] for n in names], dtype=float)
+        cu = CU()
+        cu.names, cu.distance = names, 1 * u.kpc
+        cu.wav = w * u.micron
+        cu.apertures = np.array(inp['ap'], dtype=float) * u.au
+        cu.val, cu.unc = val * u.mJy, 0.1 * np.abs(val) * u.mJy
+        cu.write(os.path.join(d, 'flux.fits'))
+        try:
+            m = M.read(d, [{'aperture_arcsec': 3.0, 'wav': inp['lam'] * u.micron}], distance_range=None, use_memmap=False)
+        except Exception as e:  # noqa: BLE001
+            return True, {'raised': '%s: %s' % (type(e).__name__, e)}
+        dist = np.abs(w - inp['lam'])
+        best = [j for j in range(len(w)) if dist[j] <= dist.min() * (1 + 1e-12)]
+        got = np.asarray(m.fluxes[:, 0].value, dtype=float)
+        ok = any(np.allclose(got, val[:, 0, j], rtol=1e-6, atol=0) for j in best)
+        return (not ok), {'requested': inp['lam'], 'tabulated': w.tolist(), 'fluxes_read': got.tolist(),
+                          'fluxes_at_nearest': val[:, 0, best[0]].tolist()}
+    finally:
+        shutil.rmtree(d, ignore_errors=True)
+
+
+def h_cube_slice(n_wav, n_ap, nm, concrete_w=None):
     def run(part):
         std_assumptions(part)
         part.bounds = {'cube_wavelengths': n_wav, 'apertures': n_ap, 'models': nm, 'requested_wavelength': 'any positive, not equidistant from two nodes'}
@@ -216,10 +248,19 @@ def h_cube_slice(n_wav, n_ap, nm):
         def body(c):
             pk.fs.files.clear()
             grid = pk.symbolic_grid(c, names, n_ap, n_wav, wav_desc=False)
-            pk.conf('CUBE', 2)
-            pk.write_cube('CUBE', grid)
             lam = C.fresh_real('lam')
             c.assume(lam > 0)
+            if concrete_w is not None:
+                # tabulated wavelengths concrete; facts about log10(lam) at the nodes and at the geometric means, so that a
+                # selection made in log space can be told apart from the nearest wavelength (all true of log10)
+                grid['w'] = symnp.SymArray(list(concrete_w))
+                L = C.real(C.s_log10(lam))
+                pts = list(concrete_w) + [float(np.sqrt(a * b)) for a, b in zip(concrete_w[:-1], concrete_w[1:])]
+                for p_ in pts:
+                    lp = C.rv(float(np.log10(p_)))
+                    c.facts.append(z3.And((lam.t < C.rv(p_)) == (L.t < lp), (lam.t == C.rv(p_)) == (L.t == lp)))
+            pk.conf('CUBE', 2)
+            pk.write_cube('CUBE', grid)
             filters = [{'aperture_arcsec': 3.0, 'wav': lam * U.micron}]
             c.vars = (grid, lam)
             return M.Models._read_version_2('CUBE', filters, distance_range=None, remove_resolved=False, use_memmap=False)
@@ -227,8 +268,10 @@ def h_cube_slice(n_wav, n_ap, nm):
         with loader.Coverage() as cov:
             for c, out in ex.run(body):
                 grid, lam = c.vars
+                inputs = lambda m: {'names': names, 'w': mval(m, grid['w']), 'ap': mval(m, grid['ap']), 'lam': mval(m, lam),
+                                    'flux': {n: mval(m, grid['flux'][n]) for n in names}}
                 if out[0] == 'exc':
-                    cl.crash(c, out[1], 'Models.read (cube, wavelength filter)')
+                    cl.crash(c, out[1], 'Models.read (cube, wavelength filter)', inputs, replay_slice)
                     continue
                 m = out[1]
                 fl = symnp._obj(su.value_of(m.fluxes))
@@ -242,7 +285,8 @@ def h_cube_slice(n_wav, n_ap, nm):
                         vals = [C.same(fl[mm, 0], grid['flux'][names[mm]][0, j]) for mm in range(nm)]
                         alts.append(z3.And(nearest + vals))
                 cl.claim(c, z3.And(z3.Or(alts), C.same(m.wavelengths.to(U.micron).value[0], lam)) if ok else False,
-                         'M4 a wavelength filter selects the cube slice at the nearest tabulated wavelength (smallest aperture column)')
+                         'M4 a wavelength filter selects the cube slice at the nearest tabulated wavelength (smallest aperture column)',
+                         inputs, replay_slice)
                 if part.witnesses < 2:
                     cl.witness(c)
         R.finish_part(part, ex, cov)
@@ -264,6 +308,7 @@ def configs(tier, seed):
         cfgs.append(Config('mono n_wav=5 window [min,max] nm=1 n_ap=1', h_mono(5, 1, 1, 'both', (0,)), 6000))
     cfgs.append(Config('cube slice n_wav=3 n_ap=1 nm=2', h_cube_slice(3, 1, 2), 1500))
     cfgs.append(Config('cube slice n_wav=2 n_ap=2 nm=1', h_cube_slice(2, 2, 1), 1500))
+    cfgs.append(Config('cube slice tabulated wavelengths 1,2,4,8 micron nm=1', h_cube_slice(4, 1, 1, concrete_w=(1.0, 2.0, 4.0, 8.0)), 1500))
     return cfgs
 
 
